@@ -1,7 +1,7 @@
 # Author: Bohua Zhan
 
 from typing import Tuple
-from kernel.type import TFun, BoolType, TyInst
+from kernel.type import TFun, BoolType, TyInst, TypeMatchException
 from kernel import term
 from kernel.term import Term, Const, Implies, Eq, Forall, Lambda, Inst
 from kernel import term_ord
@@ -287,9 +287,17 @@ class Thm:
 
         """
         try:
+            # The same instantiation must be applied to all hypotheses and to
+            # the proposition. The type instantiation is completed while
+            # matching the types of the instantiated schematic variables, so
+            # first do this for the whole sequent.
+            for t in th.hyps + (th.prop,):
+                for v in t.get_svars():
+                    if v.name in inst:
+                        v.T.match_incr(inst[v.name].get_type(), inst.tyinst)
             hyps_new = tuple(hyp.subst(inst) for hyp in th.hyps)
             prop_new = th.prop.subst(inst)
-        except term.TermException:
+        except (term.TermException, TypeMatchException):
             raise InvalidDerivationException("substitution")
         return Thm(prop_new, hyps_new)
 
